@@ -299,6 +299,30 @@ func Corpus(c *Ctx) []*FileSpec {
 		add("reqnested", "required-only-in-nested-messages", true, f)
 	}
 
+	{ // required fields only in messages declared AFTER messages with nested types (map entry, nested message) that have none
+		f := c.File("reqlater", "proto2")
+		pkg := c.Pkg("reqlater")
+		labels := Msg("Labels", F("title", 2, Opt, "string"))
+		MapField(labels, FullName(pkg, "Labels"), "values", 1, "string", "string")
+		holder := Msg("Holder", F("e", 1, Opt, FullName(pkg, "Holder", "Empty")))
+		holder.NestedType = append(holder.NestedType, Msg("Empty", F("n", 1, Opt, "int32")))
+		item := Msg("Item", F("id", 1, Req, "int32"), F("tag", 2, Opt, "string"))
+		f.MessageType = append(f.MessageType, labels, holder, item)
+		add("reqlater", "required-only-in-later-messages", true, f)
+	}
+	{ // ... and only in the nested type of the LAST message, after siblings with nested types
+		f := c.File("reqlast", "proto2")
+		pkg := c.Pkg("reqlast")
+		// (distinct short names: nested messages sharing a short name are the recorded per-message file-name finding)
+		first := Msg("First", F("k", 1, Opt, FullName(pkg, "First", "KidA")))
+		first.NestedType = append(first.NestedType, Msg("KidA", F("n", 1, Opt, "int32")))
+		second := Msg("Second", F("x", 1, Opt, "string"))
+		last := Msg("Last", F("k", 1, Opt, FullName(pkg, "Last", "KidB")))
+		last.NestedType = append(last.NestedType, Msg("KidB", F("need", 1, Req, "bytes")))
+		f.MessageType = append(f.MessageType, first, second, last)
+		add("reqlast", "required-only-in-last-nested-message", true, f)
+	}
+
 	// ---- composites: everything healthy at once ----
 	for _, syn := range []string{"proto3", "proto2"} {
 		name := "mix3"
